@@ -12,5 +12,6 @@ INVARIANT NoJunk
 INVARIANT DoneOK
 INVARIANT OnlyDocumentedFatal
 PROPERTY GrowthOK
+PROPERTY Refines
 PROPERTY Terminates
 CHECK_DEADLOCK FALSE
